@@ -13,21 +13,23 @@ MANIFEST = {
     'level_text': 'Proved for all table sizes / site counts (relative to the assumed numpy contracts): the count matrix is exact cell by cell '
                   '(np.unique-rows + fancy assignment incl. negative-index wrap), empty diagonal for jump tables, callee preconditions of the '
                   'thin callers, scalar structure and summand of jump_diffusivity; matrix total = number of table rows by the L-partition lemma and sum_ij d_ij^2 M_ij = sum over jumps of d^2 by the L-exch lemma '
-                  '(two nested inductions each). Bounded only: per-label counter, graph edge set, occupancies (exhaustive small tables + seeded random histories on the real classes). '
+                  '(two nested inductions each); Transitions.occupancy(): site i gets Count(states == i) / n_frames, 0 when never visited, same coordinates / labels / cell (real AST, dict(zip(...)) as a finite map), and the occupancies add up to the fraction of atom-frames at sites by the L-occupancy lemmas. '
+                  'Bounded only: per-label counter, graph edge set, per-label occupancy aggregates (exhaustive small tables + seeded random histories on the real classes, several atoms per site and frame included). '
                   'Transitions.matrix() with NOSITE rows is the recorded known finding C05-nosite-fold.',
-    'level_note': 'Trusted: numpy contracts (unique(axis=0,return_counts), fancy assignment, sum), pandas column access, pymatgen '
+    'level_note': 'Trusted: numpy contracts (unique(axis=0,return_counts), unique(return_counts) over the whole array, fancy assignment, sum), python dict lookup, pandas column access, pymatgen '
                   'get_all_distances as uninterpreted mindist, FloatWithUnit as float, integers unbounded, floats as reals, pyvc itself.',
-    'technique': 'deductive: VCs from the real AST of _calculate_transitions_matrix / Jumps.matrix / Jumps.jump_diffusivity discharged by z3; '
+    'technique': 'deductive: VCs from the real AST of _calculate_transitions_matrix / Jumps.matrix / Jumps.jump_diffusivity / Transitions.occupancy discharged by z3; '
                  'counter-models by finite-scope grounding replayed on the real code; bounded stand-ins for the aggregate clauses',
 }
-UNITS = ['unit_matrix', 'unit_matrix_nosite', 'unit_jumps_matrix', 'unit_diffusivity', 'unit_partition']
+UNITS = ['unit_matrix', 'unit_matrix_nosite', 'unit_jumps_matrix', 'unit_diffusivity', 'unit_partition', 'unit_occupancy', 'unit_occupancy_lemmas']
 BOUNDED = ['bounded_matrix', 'bounded_bookkeeping', 'bounded_purity']
 META = {
     'clauses': {
         'C05.matrix': 'P: M[i,j] = Count(rows start=i, dest=j) for tables without NOSITE; with NOSITE rows the cells outside row/column n-1 (known finding C05-nosite-fold for the rest)',
         'C05.diag': 'P: empty diagonal given start != destination (C04.E2)',
         'C05.diff': 'P: scalar structure and summand of jump_diffusivity; the exchange sum_ij d_ij^2 M_ij = sum_jumps d^2 by the L-exch lemma (two nested inductions)',
-        'C05.sum': 'P (L-partition lemma over C05.matrix)', 'C05.counter/C05.graph/C05.rates/C05.occ': 'B: bounded stand-in only',
+        'C05.sum': 'P (L-partition lemma over C05.matrix)', 'C05.occ': 'P: Transitions.occupancy() per site + L-occupancy lemmas (sum over sites = atom-frames at sites / n_frames); B for occupancy_by_site_type / atom_locations',
+        'C05.counter/C05.graph/C05.rates': 'B: bounded stand-in only',
     },
     'not_decided': [],
 }
@@ -258,6 +260,136 @@ def unit_partition(tier):
     return u
 
 
+def unit_occupancy(tier):
+    """Transitions.occupancy(): site i gets Count(states == i) / n_frames - the number of atom-frames spent at site i (several atoms at one site in
+    one frame count separately) over the number of frames - and an unvisited site gets 0; coordinates, labels, cell and site properties are those
+    of the site structure.  Count is the spec function of the assumed numpy contract of unique(return_counts=True)."""
+    from verif.engine.interp import SymIter
+    from verif.engine.values import to_z3
+    u = Unit('C05.occupancy')
+    _world(u)
+
+    def setup(interp):
+        ctx = interp.ctx
+        n, T, N = z3.Int('n_sites'), z3.Int('n_frames'), z3.Int('n_floating')
+        ctx.assume(z3.And(n >= 1, T >= 1, N >= 1))
+        sf_ = z3.Function('states', z3.IntSort(), z3.IntSort(), z3.IntSort())
+        t, a = z3.Ints('st_t st_a')
+        ctx.assume(z3.ForAll([t, a], z3.Implies(z3.And(t >= 0, t < T, a >= 0, a < N), z3.And(sf_(t, a) >= -1, sf_(t, a) < n)), patterns=[sf_(t, a)]),
+                   tag='contract of Transitions.states (C02): NOSITE or a site index')
+        states = STensor((T, N), lambda x, y: sf_(to_z3(x), to_z3(y)), 'int')
+        lat = W.sym_lattice(ctx)
+        ctx.ghost['lattice_obj'] = lat
+        sites = W.sym_structure(ctx, 'sites', n, lat)
+        props = SObj('SiteProperties')
+        sites._fields['site_properties'] = props
+        el = SObj('Element', name='El')
+        tr = SObj('Transitions', sites=sites, states=states)
+        st = {'n': n, 'T': T, 'N': N, 'states': sf_, 'sites': sites, 'props': props}
+
+        def iterate_hook(i_, v, line):
+            if v is sites:
+                return SymIter(n, lambda k: SObj('PeriodicSite', _k=k, species=SObj('Composition', elements=[el]), label=SObj('Label', of=k)))
+            return NotImplemented
+        u.iterate_hook = iterate_hook
+
+        def unique(i_, tns, return_counts, axis, line):
+            if tns is not states or not return_counts or axis is not None:
+                from verif.engine.core import Unsupported
+                raise Unsupported('np.unique form')
+            c = i_.ctx
+            L = c.fresh_int('uq_len')
+            key = c.fresh_fun('uq_val', z3.IntSort(), z3.IntSort())
+            CNT = z3.Function('Count', z3.IntSort(), z3.IntSort())
+            kidx = c.fresh_fun('uq_idx', z3.IntSort(), z3.IntSort())
+            j, k, v = z3.Int(c.name('j')), z3.Int(c.name('k')), z3.Int(c.name('v'))
+            c.assume(L >= 1)
+            c.assume(z3.ForAll([j, k], z3.Implies(z3.And(j >= 0, j < k, k < L), key(j) < key(k)), patterns=[z3.MultiPattern(key(j), key(k))]))
+            c.assume(z3.ForAll([k], z3.Implies(z3.And(k >= 0, k < L), CNT(key(k)) >= 1), patterns=[key(k)]))
+            c.assume(z3.ForAll([v], z3.And(CNT(v) >= 0, z3.Implies(CNT(v) >= 1, z3.And(kidx(v) >= 0, kidx(v) < L, key(kidx(v)) == v))), patterns=[CNT(v)]))
+            c.assume(z3.ForAll([t, a], z3.Implies(z3.And(t >= 0, t < T, a >= 0, a < N), CNT(sf_(t, a)) >= 1), patterns=[sf_(t, a)]))
+            c.use('numpy.unique(x, return_counts=True) on the whole array: strictly increasing distinct values; counts[k] = Count(x == values[k]) >= 1; Count(v) >= 1 only for listed values')
+            st['CNT'] = CNT
+            return (STensor((L,), lambda q: key(to_z3(q)), 'int'), STensor((L,), lambda q: CNT(key(to_z3(q))), 'int'))
+        u.unique = unique
+        u.lib['pymatgen.core.Structure'] = lambda i_, l_, *a_, **k_: SObj('StructureOut', _args=list(a_), **k_)
+        return [tr], {}, st
+
+    def post(interp, st, res):
+        ok = isinstance(res, SObj) and res._cls == 'StructureOut' and not res.get('_args') and 'CNT' in st
+        out = [('a Structure built from keyword arguments, after one np.unique with counts over the states', z3.BoolVal(bool(ok)))]
+        if not ok:
+            return out
+        sites, n, T, CNT = st['sites'], st['n'], st['T'], st['CNT']
+        out.append(('same cell, coordinates, labels and site properties as the site structure', z3.BoolVal(
+            res.has('lattice') and res.get('lattice') is sites.get('lattice') and res.has('coords') and res.get('coords') is sites.get('frac_coords')
+            and res.has('labels') and res.get('labels') is sites.get('labels') and res.has('site_properties') and res.get('site_properties') is st['props'])))
+        sp = res.get('species') if res.has('species') else None
+        if not isinstance(sp, SSeq):
+            return out + [('one composition per site', z3.BoolVal(False))]
+        out.append(('one composition per site', to_z3(sp.length) == n))
+        i = z3.Int('site_i')
+        comp = sp.fn(i)
+        if not (isinstance(comp, dict) and list(comp) == ['El']):
+            return out + [('composition of site i = {its element: occupancy}', z3.BoolVal(False))]
+        out.append(('occupancy of site i = Count(states == i) / n_frames (0 for a site never visited)',
+                    z3.Implies(z3.And(i >= 0, i < n), to_z3(comp['El']) == z3.ToReal(CNT(i)) / z3.ToReal(T))))
+        return out
+    default = {'states': [[0, 0], [0, 1], [-1, 1], [2, 1], [2, -1], [2, 0], [1, 0], [1, 1]], 'n_sites': 4, 'labels': ['A', 'B', 'A', 'B']}
+    u.prove_function('gemdat.transitions', 'Transitions.occupancy', setup, post, raises=(),
+                     replay={'fn': 'verif.props.c05:replay_bookkeeping', 'sizes': lambda st: [], 'concretise': lambda model, st, ob: default})
+    return u
+
+
+def unit_occupancy_lemmas(tier):
+    """Occupancies add up to the fraction of atom-frames spent at sites: with the atom-frames enumerated k = 0..K-1 (site x(k), -1 = no site),
+         C(i, k+1) = C(i, k) + [x(k) = i]        count of site i among the first k atom-frames          (C(i, K) is Count(states == i))
+         S(k, m+1) = S(k, m) + C(m, k)           sum of the counts of the sites < m
+         A(k+1)    = A(k) + [0 <= x(k) < n]      atom-frames spent at a site
+       S(k+1, m) = S(k, m) + [0 <= x(k) < m]  (induction on m), hence S(k, n) = A(k) (induction on k); dividing by the number of frames is linear."""
+    u = Unit('C05.occupancy_lemmas')
+    I = z3.IntSort()
+    ind = lambda c: z3.If(c, 1, 0)  # noqa: E731
+
+    def step_m(ctx):
+        C, S, x = z3.Function('C', I, I, I), z3.Function('S', I, I, I), z3.Function('x', I, I)
+        k, m = z3.Ints('k m')
+        ctx.assume(z3.And(k >= 0, m >= 0))
+        ctx.assume(z3.And(S(k, 0) == 0, S(k + 1, 0) == 0, S(k, m + 1) == S(k, m) + C(m, k), S(k + 1, m + 1) == S(k + 1, m) + C(m, k + 1),
+                          C(m, k + 1) == C(m, k) + ind(x(k) == m)))
+        ctx.assume(S(k + 1, m) == S(k, m) + ind(z3.And(x(k) >= 0, x(k) < m)))
+        return [('base (m = 0)', S(k + 1, 0) == S(k, 0) + ind(z3.And(x(k) >= 0, x(k) < 0))),
+                ('step', S(k + 1, m + 1) == S(k, m + 1) + ind(z3.And(x(k) >= 0, x(k) < m + 1)))]
+    u.lemma('C05.L-occupancy.one-more-atom-frame(induction on sites)', step_m)
+
+    def zero(ctx):
+        C, S = z3.Function('C', I, I, I), z3.Function('S', I, I, I)
+        m = z3.Int('m')
+        ctx.assume(z3.And(m >= 0, S(0, 0) == 0, S(0, m + 1) == S(0, m) + C(m, 0), C(m, 0) == 0))
+        ctx.assume(S(0, m) == 0)
+        return [('base', S(0, 0) == 0), ('step', S(0, m + 1) == 0)]
+    u.lemma('C05.L-occupancy.no-atom-frames(induction on sites)', zero)
+
+    def step_k(ctx):
+        S, A, x = z3.Function('S', I, I, I), z3.Function('A', I, I), z3.Function('x', I, I)
+        k, n = z3.Ints('k n')
+        ctx.assume(z3.And(k >= 0, n >= 1, x(k) >= -1, x(k) < n))
+        ctx.assume(S(k + 1, n) == S(k, n) + ind(z3.And(x(k) >= 0, x(k) < n)))  # previous lemma at m = n
+        ctx.assume(z3.And(S(0, n) == 0, A(0) == 0, A(k + 1) == A(k) + ind(z3.And(x(k) >= 0, x(k) < n))))
+        ctx.assume(S(k, n) == A(k))
+        return [('base', S(0, n) == A(0)), ('step: the site counts add up to the number of atom-frames spent at sites', S(k + 1, n) == A(k + 1))]
+    u.lemma('C05.L-occupancy.total(induction on atom-frames)', step_k)
+
+    def scaled(ctx):
+        f, Sr, Sc = z3.Function('cnt', I, z3.RealSort()), z3.Function('Sr', I, z3.RealSort()), z3.Function('Sc', I, z3.RealSort())
+        m, T = z3.Int('m'), z3.Real('n_frames')
+        ctx.assume(z3.And(m >= 0, T > 0, Sr(0) == 0, Sc(0) == 0, Sr(m + 1) == Sr(m) + f(m) / T, Sc(m + 1) == Sc(m) + f(m)))
+        ctx.assume(Sr(m) == Sc(m) / T)
+        return [('base', Sr(0) == Sc(0) / T), ('step: sum of the occupancies = (sum of the counts) / n_frames', Sr(m + 1) == Sc(m + 1) / T)]
+    u.lemma('C05.L-occupancy.sum-of-occupancies(induction on sites)', scaled)
+    return u
+
+
 def replay_matrix(inputs):
     import numpy as np
     import pandas as pd
@@ -327,6 +459,9 @@ def replay_bookkeeping(inputs):
             bad.append(f'occupancy[{k}] = {got}, expected {expect}')
     if abs(tot - float((states >= 0).sum()) / T) > 1e-9:
         bad.append('occupancies do not add up to the fraction of atom-frames at sites')
+    if len(occ) != n_sites or not np.allclose(occ.frac_coords, tr.sites.frac_coords) or list(occ.labels) != list(tr.sites.labels) \
+            or not np.allclose(occ.lattice.matrix, tr.sites.lattice.matrix):
+        bad.append('the occupancy structure does not list the sites (coordinates, labels, cell) of the site structure in their order')
     al = tr.atom_locations()
     for lab in set(labels):
         expect = sum(float((states == k).sum()) for k in range(n_sites) if labels[k] == lab) / T / N
@@ -403,10 +538,16 @@ def bounded_bookkeeping(tier, seed):
             for a in range(N):
                 if t == 0 or rng.random() < 0.3:
                     new = int(rng.integers(-1, S))
-                    # one atom per site and frame (pymatgen rejects occupancies above one)
-                    if new == -1 or all(cur[b] != new for b in range(N) if b != a):
+                    # every third case: several atoms may sit at the same site in the same frame (an atom arriving before the previous one has left);
+                    # otherwise one atom per site and frame
+                    if new == -1 or c % 3 == 1 or all(cur[b] != new for b in range(N) if b != a):
                         cur[a] = new
                 states[t, a] = cur[a]
+        for k in range(S):
+            # pymatgen rejects a site occupancy above one: at most T atom-frames per site over the run
+            while (states == k).sum() > T:
+                tt, aa = np.argwhere(states == k)[-1]
+                states[tt:, aa] = np.where(states[tt:, aa] == k, -1, states[tt:, aa])
         if (states == states[0]).all():
             free = [k for k in range(-1, S) if k != states[0, 0] and (k == -1 or k not in states[-1, 1:])]
             states[-1, 0] = free[0]
